@@ -233,9 +233,8 @@ Proof.
   - inversion E; subst. apply in64_wrap.
   - inversion E; subst. apply in64_wrap.
 Qed.
-Definition in64b (z : Z) : bool := (- two63 <=? z) && (z <? two63).
-Lemma in64b_in64 z : in64b z = true <-> in64 z.
-Proof. unfold in64b, in64. rewrite andb_true_iff, Z.leb_le, Z.ltb_lt. tauto. Qed.
+Lemma lit_i64_in64 z : lit_i64 z = true <-> in64 z.
+Proof. unfold lit_i64, in64, min_int, max_int. rewrite andb_true_iff, !Z.leb_le. lia. Qed.
 
 Lemma preserved_weaken s s' sp t : preserved s s' sp t -> preserved_rem s s' sp t.
 Proof. intros (P & R). split; [|exact R]. intros; apply P; auto. Qed.
